@@ -265,6 +265,9 @@ def main(tier):
     ck.trusted = ["jax.experimental.sparse.linalg.spsolve solves the CSR system it is given", "tridiax.stone_*: its real code runs through the same chain obligations for structures with <= 2 compartments per branch (thorough: also the single 3-compartment branch); for wider branches it is ASSUMED to compute the same function as tridiax.thomas_* (which runs through the chain for every structure)",
                   "jax.numpy/lax/vmap primitive models", "z3 nlsat", "specs/cable.py states the physics",
                   "cited: a strictly diagonally dominant M-matrix system has exactly one solution"]
+    # E9: the level-schedule helpers behind the structures above, proved for parent vectors of any length (jxverif/astvc.py)
+    from . import layout
+    ck.extra["layout_native_evaluations"] = layout.run(ck, tier)
     ck.assumptions += ["positive radius/length/axial resistivity/capacitance, membrane conductance terms >= 0, dt > 0; all REAL values (proved), static structure enumerated (bounded)",
                        "math.pi / jnp.pi are the real number pi"]
     return ck.finish()
